@@ -117,112 +117,154 @@ func replayObligation(eng *Engine, r oblResult, verif string) (bool, string) {
 		return name
 	}
 	plan := &replayPlan{}
-	type sliceObs struct {
-		ln    string
-		elems []string
-		et    types.Type
-	}
-	obsSlice := func(comps []*Term, et types.Type) *sliceObs {
-		so := &sliceObs{et: et, ln: newSlot(plan, comps[2])}
-		keys := elemKeys(et)
-		if len(keys) != 1 {
-			return nil
-		}
-		arr := Select(entry.heap.Get(keys[0], keySortReg[keys[0]]), comps[0])
-		for i := 0; i < replayMaxElems; i++ {
-			so.elems = append(so.elems, newSlot(plan, Select(arr, Idx(comps[1], IntLit(int64(i))))))
-		}
-		return so
-	}
-	sliceLit := func(so *sliceObs, st types.Type, vals map[string]string) (string, bool) {
-		ln, ok := modelInt(vals[so.ln])
-		if !ok || ln < 0 || ln > replayMaxElems {
-			return "", false
-		}
-		var parts []string
-		for i := int64(0); i < ln; i++ {
-			l := goLit(vals[so.elems[i]], so.et, qual)
-			if l == "" {
-				return "", false
+	type builder func(vals map[string]string) (string, bool)
+	zero := func(t types.Type) builder {
+		return func(map[string]string) (string, bool) {
+			switch t.Underlying().(type) {
+			case *types.Pointer, *types.Interface, *types.Slice, *types.Map, *types.Signature, *types.Chan:
+				return "nil", true
+			case *types.Basic:
+				if scalarKind(t) == "int" {
+					return qual(t) + "(0)", true
+				}
+				if scalarKind(t) == "bool" {
+					return "false", true
+				}
+				if t.Underlying().(*types.Basic).Info()&types.IsString != 0 {
+					return "\"\"", true
+				}
+				return qual(t) + "(0)", true
 			}
-			parts = append(parts, l)
+			return qual(t) + "{}", true
 		}
-		return fmt.Sprintf("%s{%s}", qual(st), strings.Join(parts, ", ")), true
 	}
-	var builders []func(vals map[string]string) (string, bool) // one Go expression per parameter
-	for i, p := range fn.Params {
-		arg := fr.args[i]
-		pt := p.Type()
-		switch {
-		case scalarKind(pt) != "":
-			name := newSlot(plan, arg.C[0])
-			builders = append(builders, func(vals map[string]string) (string, bool) {
-				l := goLit(vals[name], pt, qual)
+	exported := func(t types.Type) bool {
+		// a value of this type can be spelled from package pkg
+		if n, ok := derefType(t).(*types.Named); ok && n.Obj().Pkg() != nil && n.Obj().Pkg() != pkg && !n.Obj().Exported() {
+			return false
+		}
+		return true
+	}
+	var obs func(t types.Type, comps []*Term, depth int, maxElems int) builder
+	obs = func(t types.Type, comps []*Term, depth int, maxElems int) builder {
+		if len(plan.slots) > 4000 || depth > 4 || !exported(t) {
+			return zero(t)
+		}
+		switch u := t.Underlying().(type) {
+		case *types.Basic:
+			if scalarKind(t) == "" || len(comps) != 1 {
+				return zero(t)
+			}
+			name := newSlot(plan, comps[0])
+			return func(vals map[string]string) (string, bool) {
+				l := goLit(vals[name], t, qual)
 				return l, l != ""
-			})
-		case isSliceOfScalars(pt):
-			so := obsSlice(arg.C, pt.Underlying().(*types.Slice).Elem())
-			if so == nil {
-				return false, "no replay adapter for parameter " + p.Name() + " of " + o.Func
 			}
-			builders = append(builders, func(vals map[string]string) (string, bool) { return sliceLit(so, pt, vals) })
-		default:
-			ptr, ok := pt.Underlying().(*types.Pointer)
-			if !ok {
-				return false, fmt.Sprintf("no replay adapter: parameter %s of %s has type %s", p.Name(), o.Func, typeStr(pt))
+		case *types.Slice:
+			if len(comps) != 4 {
+				return zero(t)
 			}
-			stt, ok := ptr.Elem().Underlying().(*types.Struct)
-			if !ok || len(arg.C) != 1 {
-				return false, fmt.Sprintf("no replay adapter: parameter %s of %s has type %s", p.Name(), o.Func, typeStr(pt))
+			et := u.Elem()
+			keys := elemKeys(et)
+			ln := newSlot(plan, comps[2])
+			base := newSlot(plan, comps[0])
+			var elems []builder
+			for i := 0; i < maxElems; i++ {
+				var ec []*Term
+				for _, k := range keys {
+					ec = append(ec, Select(Select(entry.heap.Get(k, keySortReg[k]), comps[0]), Idx(comps[1], IntLit(int64(i)))))
+				}
+				inner := maxElems
+				if inner > 6 {
+					inner = 6
+				}
+				elems = append(elems, obs(et, ec, depth+1, inner))
 			}
-			ref := arg.C[0]
-			keys := refKeys(ptr.Elem())
-			type fieldObs struct {
-				name   string
-				scalar string
-				sl     *sliceObs
-				t      types.Type
+			return func(vals map[string]string) (string, bool) {
+				if b, ok := modelInt(vals[base]); ok && b == 0 {
+					return "nil", true
+				}
+				n, ok := modelInt(vals[ln])
+				if !ok || n < 0 || n > int64(len(elems)) {
+					return "", false
+				}
+				var parts []string
+				for i := int64(0); i < n; i++ {
+					l, ok := elems[i](vals)
+					if !ok {
+						return "", false
+					}
+					parts = append(parts, l)
+				}
+				return fmt.Sprintf("%s{%s}", qual(t), strings.Join(parts, ", ")), true
 			}
-			var fields []fieldObs
+		case *types.Pointer:
+			stt, ok := u.Elem().Underlying().(*types.Struct)
+			if !ok || len(comps) != 1 || !exported(u.Elem()) {
+				return zero(t)
+			}
+			ref := comps[0]
+			refSlot := newSlot(plan, ref)
+			keys := refKeys(u.Elem())
+			type fb struct {
+				name string
+				b    builder
+			}
+			var fields []fb
 			for fi := 0; fi < stt.NumFields(); fi++ {
 				f := stt.Field(fi)
+				if f.Pkg() != nil && f.Pkg() != pkg && !f.Exported() {
+					continue
+				}
 				off := fieldOffset(stt, fi)
-				ft := f.Type()
-				switch {
-				case scalarKind(ft) != "":
-					k := keys[off]
-					fields = append(fields, fieldObs{name: f.Name(), t: ft, scalar: newSlot(plan, Select(entry.heap.Get(k, keySortReg[k]), ref))})
-				case isSliceOfScalars(ft):
-					var comps []*Term
-					for j := 0; j < 4; j++ {
-						k := keys[off+j]
-						comps = append(comps, Select(entry.heap.Get(k, keySortReg[k]), ref))
-					}
-					if so := obsSlice(comps, ft.Underlying().(*types.Slice).Elem()); so != nil {
-						fields = append(fields, fieldObs{name: f.Name(), t: ft, sl: so})
-					}
+				n := len(layout(f.Type()))
+				var fc []*Term
+				for j := 0; j < n; j++ {
+					k := keys[off+j]
+					fc = append(fc, Select(entry.heap.Get(k, keySortReg[k]), ref))
+				}
+				switch f.Type().Underlying().(type) {
+				case *types.Basic, *types.Slice, *types.Pointer:
+					fields = append(fields, fb{f.Name(), obs(f.Type(), fc, depth+1, maxElems)})
 				}
 			}
-			elemT := ptr.Elem()
-			builders = append(builders, func(vals map[string]string) (string, bool) {
+			elemT := u.Elem()
+			return func(vals map[string]string) (string, bool) {
+				if r, ok := modelInt(vals[refSlot]); ok && r == 0 {
+					return "nil", true
+				}
 				var parts []string
 				for _, f := range fields {
-					if f.sl != nil {
-						l, ok := sliceLit(f.sl, f.t, vals)
-						if !ok {
-							return "", false
-						}
-						parts = append(parts, f.name+": "+l)
-						continue
-					}
-					l := goLit(vals[f.scalar], f.t, qual)
-					if l == "" {
+					l, ok := f.b(vals)
+					if !ok {
 						return "", false
 					}
 					parts = append(parts, f.name+": "+l)
 				}
 				return fmt.Sprintf("&%s{%s}", qual(elemT), strings.Join(parts, ", ")), true
-			})
+			}
+		}
+		return zero(t)
+	}
+	var builders []func(vals map[string]string) (string, bool) // one Go expression per parameter
+	for i, p := range fn.Params {
+		pt := p.Type()
+		switch pt.Underlying().(type) {
+		case *types.Basic, *types.Slice, *types.Pointer:
+			if scalarKind(pt) == "" {
+				if _, isBasic := pt.Underlying().(*types.Basic); isBasic {
+					return false, fmt.Sprintf("no replay adapter: parameter %s of %s has type %s", p.Name(), o.Func, typeStr(pt))
+				}
+			}
+			builders = append(builders, obs(pt, fr.args[i].C, 0, replayMaxElems))
+		case *types.Struct:
+			if st, ok := pt.Underlying().(*types.Struct); ok && st.NumFields() == 0 {
+				builders = append(builders, zero(pt))
+				continue
+			}
+			return false, fmt.Sprintf("no replay adapter: parameter %s of %s has type %s", p.Name(), o.Func, typeStr(pt))
+		default:
+			return false, fmt.Sprintf("no replay adapter: parameter %s of %s has type %s", p.Name(), o.Func, typeStr(pt))
 		}
 	}
 	// the model, restricted to what the input is built from
@@ -325,8 +367,24 @@ func TestZZCsvqvcReplay(t *testing.T) {
 	_ = cmd.Run()
 	text := out.String()
 	note := "replayed on the real code with `go test -overlay` (input from the solver's model):\n" + src + "\noutput:\n" + truncate(text, 3000)
+	// the panic must be of the kind the obligation excludes (an unrelated panic on a partly built input proves nothing)
+	wantMsg := map[string][]string{
+		"bounds":     {"index out of range"},
+		"slice":      {"slice bounds out of range"},
+		"nil":        {"nil pointer dereference", "invalid memory address"},
+		"div":        {"divide by zero"},
+		"makeslice":  {"makeslice", "len out of range", "cap out of range"},
+		"typeassert": {"interface conversion"},
+		"mapwrite":   {"assignment to entry in nil map"},
+	}[o.Kind]
+	kindMatches := false
+	for _, w := range wantMsg {
+		if strings.Contains(text, w) {
+			kindMatches = true
+		}
+	}
 	switch {
-	case expect == "panic" && strings.Contains(text, "REPLAY-PANIC"):
+	case expect == "panic" && strings.Contains(text, "REPLAY-PANIC") && kindMatches:
 		return true, note
 	case expect == "hang" && strings.Contains(text, "REPLAY-HANG"):
 		return true, note
